@@ -12,6 +12,7 @@ import (
 	"fmt"
 	"runtime"
 	"strings"
+	"sync"
 	"sync/atomic"
 	"testing"
 	"time"
@@ -37,6 +38,38 @@ type PoolCase struct {
 	SchedErrAt    int               `json:"sched_factory_err_at"` // NewRPSSchedule call index that fails, -1 none
 	SchedFaultUs  int               `json:"sched_fault_delay_us"`
 	DiscardOnPool bool              `json:"discard_overflow"`
+	// IDMode: "" the harness's unique name pool<i> | "default" no id (the engine names it pool_<i>) | "name" the
+	// free-form ID below. Nothing in pandora requires the ids of an engine's pools to differ.
+	IDMode string `json:"id_mode,omitempty"`
+	ID     string `json:"id,omitempty"`
+	// plain (non-fault) slowness of schedule creation: NewRPSSchedule call SchedDelayAt (-1 = every call) sleeps
+	// SchedDelayUs without looking at any context
+	SchedDelayUs int `json:"sched_delay_us,omitempty"`
+	SchedDelayAt int `json:"sched_delay_at,omitempty"`
+}
+
+// effectiveID is the name the engine knows pool i by.
+func (p PoolCase) effectiveID(i int) string {
+	switch p.IDMode {
+	case "default":
+		return fmt.Sprintf("pool_%d", i)
+	case "name":
+		if p.ID == "" {
+			return fmt.Sprintf("pool_%d", i)
+		}
+		return p.ID
+	}
+	return fmt.Sprintf("pool%d", i)
+}
+
+func (p PoolCase) configID(i int) string {
+	switch p.IDMode {
+	case "default":
+		return ""
+	case "name":
+		return p.ID
+	}
+	return fmt.Sprintf("pool%d", i)
 }
 
 type Case struct {
@@ -134,7 +167,81 @@ func genCase(t *rapid.T) Case {
 		c.CancelAfterUs = rapid.SampledFrom([]int{300, 3000, 10000}).Draw(t, "cancelAfterUs2")
 	}
 	c.Repeat = 3
+	genIDs(t, &c)
+	genSlowSteps(t, &c)
 	return c
+}
+
+var poolNames = []string{"", "", "main", "HTTP pool", "grpc-pool", "pool_0", "pool_1", "pool_2", "пул/1"}
+
+// genIDs: pool ids as a config author writes them: none (default names), free-form names, and - with several pools -
+// a name copied from another pool: the same free-form name twice, or an explicit id that equals the default name of
+// an unnamed pool.
+func genIDs(t *rapid.T, c *Case) {
+	n := len(c.Pools)
+	style := rapid.SampledFrom([]string{"legacy", "default", "named", "named"}).Draw(t, "idStyle")
+	if style == "legacy" {
+		return
+	}
+	for i := range c.Pools {
+		c.Pools[i].IDMode = "default"
+		if style == "named" {
+			if name := rapid.SampledFrom(poolNames).Draw(t, "poolName"); name != "" {
+				c.Pools[i].IDMode, c.Pools[i].ID = "name", name
+			}
+		}
+	}
+	if n > 1 && rapid.IntRange(0, 2).Draw(t, "copyID") != 0 {
+		from := rapid.IntRange(0, n-1).Draw(t, "copyFrom")
+		to := rapid.IntRange(0, n-2).Draw(t, "copyTo")
+		if to >= from {
+			to++
+		}
+		c.Pools[to].IDMode, c.Pools[to].ID = "name", c.Pools[from].effectiveID(from)
+	}
+}
+
+// genSlowSteps: a step of one pool that does not look at any context (gun factory call, WarmUp, schedule factory
+// call) takes a while without failing. Short delays widen the window in which a fault or cancel of the generated plan
+// meets a pool that is still inside such a step; the long ones (longer than the promptness bound) always come with a
+// cancel that arrives early inside them and are run once.
+func genSlowSteps(t *rapid.T, c *Case) {
+	kind := ""
+	switch k := rapid.IntRange(0, 29).Draw(t, "slowStep"); {
+	case k == 13: // (rapid prefers the ends of a range)
+		kind = "long"
+	case k >= 14 && k <= 19:
+		kind = "short"
+	default:
+		return
+	}
+	p := &c.Pools[rapid.IntRange(0, len(c.Pools)-1).Draw(t, "slowPool")]
+	var us int
+	if kind == "short" {
+		us = rapid.SampledFrom([]int{200, 2000, 20000, 100000}).Draw(t, "slowUs")
+	} else {
+		us = rapid.SampledFrom([]int{1500000, 2000000}).Draw(t, "slowLongUs")
+	}
+	switch rapid.SampledFrom([]string{"factory0", "factory0", "factory", "warmup", "warmup", "sched", "sched"}).Draw(t, "slowWhere") {
+	case "factory0":
+		p.Gun.FactoryDelayUs, p.Gun.FactoryDelayAt = us, 0
+	case "factory":
+		p.Gun.FactoryDelayUs, p.Gun.FactoryDelayAt = us, rapid.IntRange(1, p.Instances).Draw(t, "slowFactoryAt")
+	case "warmup":
+		p.Gun.WarmUp, p.Gun.WarmUpDelayUs = true, us
+	case "sched":
+		p.SchedDelayUs, p.SchedDelayAt = us, 0
+		if p.PerInstance {
+			p.SchedDelayAt = rapid.IntRange(0, p.Instances-1).Draw(t, "slowSchedAt")
+		}
+	}
+	if kind == "long" {
+		c.Repeat = 1
+		if rapid.IntRange(0, 5).Draw(t, "slowNoCancel") != 0 {
+			c.Cancel = "during"
+			c.CancelAfterUs = rapid.SampledFrom([]int{0, 50, 300, 1000, 3000, 10000, 100000}).Draw(t, "cancelAfterUs3")
+		}
+	}
 }
 
 type poolRun struct {
@@ -144,6 +251,15 @@ type poolRun struct {
 	aggr     *fake.Aggregator
 	schedN   int32
 	schedHit atomic.Bool
+	spanMu   sync.Mutex
+	spans    []fake.StepSpan
+}
+
+// stepSpans: all plain delays the pool's doubles spent in context-blind steps.
+func (pr *poolRun) stepSpans() []fake.StepSpan {
+	pr.spanMu.Lock()
+	defer pr.spanMu.Unlock()
+	return append(pr.guns.StepSpans(), pr.spans...)
 }
 
 func buildPool(i int, pc PoolCase) (*poolRun, engine.InstancePoolConfig) {
@@ -155,6 +271,14 @@ func buildPool(i int, pc PoolCase) (*poolRun, engine.InstancePoolConfig) {
 	newSched := func() (core.Schedule, error) {
 		n := calls // NewRPSSchedule is called from one goroutine at a time? not guaranteed: keep it simple but safe
 		calls++
+		if pc.SchedDelayUs > 0 && (pc.SchedDelayAt < 0 || n == pc.SchedDelayAt) {
+			sp := fake.StepSpan{Kind: "sched", Call: n, Start: time.Now()}
+			time.Sleep(time.Duration(pc.SchedDelayUs) * time.Microsecond)
+			sp.End = time.Now()
+			pr.spanMu.Lock()
+			pr.spans = append(pr.spans, sp)
+			pr.spanMu.Unlock()
+		}
 		if pc.SchedErrAt >= 0 && n == pc.SchedErrAt {
 			if pc.SchedFaultUs > 0 {
 				time.Sleep(time.Duration(pc.SchedFaultUs) * time.Microsecond)
@@ -178,7 +302,7 @@ func buildPool(i int, pc PoolCase) (*poolRun, engine.InstancePoolConfig) {
 		return newSched()
 	}
 	return pr, engine.InstancePoolConfig{
-		ID: fmt.Sprintf("pool%d", i), Provider: pr.prov, Aggregator: pr.aggr, NewGun: pr.guns.Factory,
+		ID: pc.configID(i), Provider: pr.prov, Aggregator: pr.aggr, NewGun: pr.guns.Factory,
 		RPSPerInstance: pc.PerInstance, NewRPSSchedule: locked,
 		StartupSchedule: schedule.NewOnce(int64(pc.Instances)), DiscardOverflow: pc.DiscardOnPool,
 	}
@@ -229,6 +353,11 @@ func check(c Case, o *vf.Obs) error {
 }
 
 const runDeadline = 20 * time.Second
+
+// promptBound: how long Engine.Run may take to return the cancellation error after the caller's cancel. The engine
+// answers a cancel by itself (normally within a fraction of a millisecond), whatever its pools' components are doing;
+// the cli gives a SIGTERM'ed run 3 s before it gives up on a graceful stop.
+const promptBound = time.Second
 
 func once(c Case, o *vf.Obs, classify bool) error {
 	var prs []*poolRun
@@ -295,12 +424,15 @@ func once(c Case, o *vf.Obs, classify bool) error {
 		if len(reached) > 0 {
 			return fmt.Errorf("Engine.Run returned nil although component faults were reached: %v (a component error was swallowed)", reached)
 		}
-		if cancelInProgress {
-			// nil is only legitimate if all the work had been done anyway
-			for i, pr := range prs {
-				if !workComplete(pr, m) {
+		// nil is only legitimate if every pool ran out of ammo or schedule (after an in-progress cancel: if all the
+		// work had been done anyway)
+		for i, pr := range prs {
+			if !workComplete(pr, m) {
+				if cancelInProgress {
 					return fmt.Errorf("Engine.Run returned nil although the run was cancelled while pool%d still had work to do", i)
 				}
+				return fmt.Errorf("Engine.Run returned nil although pool %d (id %q) had neither used up its ammo nor its schedule: %d shots and discards, %d ammo delivered (ids of the pools: %q)",
+					i, pr.pc.effectiveID(i), pr.doneShots(), len(pr.prov.Delivered()), effectiveIDs(c))
 			}
 		}
 	case carriesFault:
@@ -315,8 +447,9 @@ func once(c Case, o *vf.Obs, classify bool) error {
 		return fmt.Errorf("Engine.Run returned an error that carries neither a reached fault nor the cancellation: %q (reached: %v, cancel: %q)", runErr, reached, c.Cancel)
 	}
 	if cancelInProgress && runErr != nil {
-		if lag := runReturned.Sub(cancelAt); lag > 2*time.Second {
-			return fmt.Errorf("Engine.Run returned %v after the cancellation, expected promptly", lag)
+		if lag := runReturned.Sub(cancelAt); lag > promptBound {
+			return fmt.Errorf("Engine.Run returned %v after the cancellation, expected promptly (within %v; context-blind steps in progress: %v)",
+				lag, promptBound, describeSpans(prs, cancelAt))
 		}
 	}
 	// ---- everything stops ----
@@ -390,6 +523,34 @@ func once(c Case, o *vf.Obs, classify bool) error {
 			}
 		}
 		o.ClassIf(cancelInProgress, "cancel_in_progress")
+		if c.Cancel == "during" && cancelInProgress {
+			for _, pr := range prs {
+				for _, sp := range pr.stepSpans() {
+					if !cancelAt.Before(sp.Start) && cancelAt.Before(sp.End) {
+						o.Class("cancel_inside_blind_step", "cancel_inside_blind_"+sp.Kind)
+						if sp.End.Sub(cancelAt) > promptBound {
+							o.Class("cancel_inside_long_blind_step", "cancel_inside_long_blind_"+sp.Kind)
+							o.ClassIf(allOthersDone(prs, pr, cancelAt), "cancel_inside_long_blind_step_other_pools_done")
+						}
+					}
+				}
+			}
+		}
+		ids := map[string]int{}
+		for i, pc := range c.Pools {
+			ids[pc.effectiveID(i)]++
+		}
+		equalIDs, equalsDefault := false, false
+		for i, pc := range c.Pools {
+			if ids[pc.effectiveID(i)] > 1 {
+				equalIDs = true
+				equalsDefault = equalsDefault || pc.configID(i) == ""
+			}
+		}
+		o.ClassIf(equalIDs, "pool_ids_equal")
+		o.ClassIf(equalsDefault, "pool_id_equals_default_name_of_other")
+		o.ClassIf(equalIDs && len(reached) > 0, "pool_ids_equal_and_fault_reached")
+		o.ClassIf(len(c.Pools) > 0 && c.Pools[0].IDMode == "default", "pool_ids_default")
 		o.ClassIf(c.Cancel == "before", "cancel_before_run")
 		o.ClassIf(len(c.Pools) > 1, "pools_gt_1")
 		o.ClassIf(runErr == nil, "result_nil")
@@ -410,9 +571,7 @@ func workComplete(pr *poolRun, m engine.Metrics) bool {
 	if pc.Profile == "long" && pc.Prov.Total < 0 {
 		return false
 	}
-	fired := len(pr.guns.Shots)
-	_, disc := pr.aggr.Counts()
-	doneShots := fired + disc
+	doneShots := pr.doneShots()
 	if pc.Prov.Total >= 0 && len(pr.prov.Delivered()) >= pc.Prov.Total {
 		return true // ammo used up
 	}
@@ -424,6 +583,45 @@ func workComplete(pr *poolRun, m engine.Metrics) bool {
 		tokens = pc.Tokens * pc.Instances
 	}
 	return doneShots >= tokens
+}
+
+func (pr *poolRun) doneShots() int {
+	_, disc := pr.aggr.Counts()
+	return pr.guns.ShotCount() + disc
+}
+
+func effectiveIDs(c Case) []string {
+	var out []string
+	for i, pc := range c.Pools {
+		out = append(out, pc.effectiveID(i))
+	}
+	return out
+}
+
+// describeSpans lists the context-blind delays that were in progress at instant at.
+func describeSpans(prs []*poolRun, at time.Time) []string {
+	var out []string
+	for i, pr := range prs {
+		for _, sp := range pr.stepSpans() {
+			if !at.Before(sp.Start) && at.Before(sp.End) {
+				out = append(out, fmt.Sprintf("pool%d %s call %d, ends %v after the cancel", i, sp.Kind, sp.Call, sp.End.Sub(at)))
+			}
+		}
+	}
+	return out
+}
+
+// allOthersDone: every pool but pr had nothing running any more at instant at (classification only).
+func allOthersDone(prs []*poolRun, pr *poolRun, at time.Time) bool {
+	for _, q := range prs {
+		if q == pr {
+			continue
+		}
+		if !q.prov.RunReturned.Load() || q.prov.RunReturnAt.Load() > at.UnixNano() {
+			return false
+		}
+	}
+	return true
 }
 
 func TestOutcome(t *testing.T) {
